@@ -83,6 +83,18 @@ def rich(t):
 # list of ints), 'any'
 
 def gen_value(rng, ty):
+    if ty == "guard":
+        # a condition that is false about half of the time
+        return b"" if rng.random() < 0.55 else gen.int_atom(rng.choice([1, 1, 2, 7]))
+    if ty == "maybe":
+        # either a value a partial expression (f (f (r X))), (/ 100 X) … is defined on, or one it fails on
+        r = rng.random()
+        if r < 0.3:
+            return b""
+        if r < 0.45:
+            return gen.int_atom(rng.choice([0, 1, 5]))
+        return gen.lst([gen.int_atom(rng.randint(1, 9)), gen.lst([gen.int_atom(rng.randint(1, 9)), gen.int_atom(rng.randint(1, 9))]),
+                        gen.int_atom(rng.randint(1, 9))])
     if ty == "int":
         r = rng.random()
         if r < 0.7:
@@ -129,7 +141,7 @@ class ProgGen:
     """one generated program; `features` selects the stratum."""
 
     ALL_FEATURES = ["functions", "inlines", "lets", "assign", "destructure", "captures", "rest", "lambda",
-                    "constants", "macros", "literals", "qq", "applydata", "manyparams", "shadow"]
+                    "constants", "macros", "literals", "qq", "applydata", "manyparams", "shadow", "guarded", "nilparam"]
 
     def __init__(self, rng, dialect, features=None, nparams=None):
         self.rng = rng
@@ -182,6 +194,11 @@ class ProgGen:
             # a list-shaped pattern of k positions
             items = []
             for _ in range(k):
+                if self.has("nilparam") and rng.random() < 0.06:
+                    # `()` in a parameter position: binds nothing, takes up the position
+                    self.use("nilparam")
+                    items.append(("plist", [], None))
+                    continue
                 if allow_nested and depth < 2 and self.has("destructure") and rng.random() < 0.2:
                     self.use("destructure")
                     sub = build(rng.randint(1, 3), depth + 1)
@@ -220,6 +237,10 @@ class ProgGen:
             return ("plist", items, tail)
 
         shape = build(n, 0)
+        for nm, ty in (getattr(self, "extra_main_leaves", []) if prefix == "P" else []):
+            names.append(nm)
+            types[nm] = ty
+            shape[1].append(("leaf", nm, ty))
         if getattr(self, "force_capture", False) and self.has("captures") and not any(x[0] == "cap" for x in shape[1]):
             # make sure there is an (@ name (sub pattern)) parameter
             self.use("captures")
@@ -602,6 +623,48 @@ class ProgGen:
         self.forced_now = False
         return L(S("defun-inline" if inline else "defun"), S(name), pat, body)
 
+    def make_guarded(self):
+        """a function whose body repeats a PARTIAL expression (one that fails on some arguments) in several
+        branches, each occurrence protected by its own guard: what an optimiser that hoists common
+        subexpressions, or evaluates a branch early, must not break."""
+        rng = self.rng
+        self.use("guarded")
+        inline = self.has("inlines") and rng.random() < 0.25
+        name = self.fresh("fi_" if inline else "fn_")
+        g1, g2, x = self.fresh("A"), self.fresh("A"), self.fresh("A")
+        X = S(x)
+        partial = rng.choice([
+            L(S("f"), L(S("f"), L(S("r"), X))),
+            L(S("f"), L(S("r"), L(S("f"), L(S("r"), X)))),
+            L(S("+"), L(S("f"), X), L(S("f"), L(S("r"), L(S("r"), X)))),
+            L(S("/"), I(1000), L(S("f"), X)),
+            L(S("strlen"), L(S("f"), L(S("r"), X))),
+        ])
+        E = lambda k: L(S("+"), I(k), partial)
+        shape_kind = rng.choice(["nested", "nested", "sibling", "triple", "letdup", "guardexpr"])
+        G1, G2 = S(g1), S(g2)
+        if shape_kind == "nested":
+            body = L(S("if"), G1, E(1), L(S("if"), G2, E(2), I(0)))
+        elif shape_kind == "sibling":
+            body = L(S("+"), L(S("if"), G1, partial, I(0)), L(S("if"), G2, partial, I(0)))
+        elif shape_kind == "triple":
+            body = L(S("if"), G1, L(S("if"), G2, E(1), E(3)), L(S("if"), G2, L(S("*"), partial, partial), I(0)))
+        elif shape_kind == "letdup" and self.has("lets") and not self.classic:
+            v = self.fresh("V")
+            body = L(S("if"), G1, L(S("let"), L(L(S(v), partial)), L(S("+"), S(v), S(v))), L(S("if"), G2, E(2), I(0)))
+        else:
+            # the guard itself is what makes the expression defined
+            body = L(S("if"), L(S("l"), X), L(S("if"), L(S("l"), L(S("r"), X)), L(S("if"), L(S("l"), L(S("f"), L(S("r"), X))),
+                     L(S("+"), partial, partial), I(0)), I(0)), I(0))
+            if partial[1][0] != ("sym", "f") or text(partial) != text(L(S("f"), L(S("f"), L(S("r"), X)))):
+                body = L(S("if"), G1, E(1), L(S("if"), G2, E(2), I(0)))
+        pat = L(S(g1), S(g2), S(x))
+        shape = ("plist", [("leaf", g1, "guard"), ("leaf", g2, "guard"), ("leaf", x, "maybe")], None)
+        f = {"name": name, "inline": inline, "ret": "int", "pattern": pat, "shape": shape, "body": body}
+        self.fns.append(f)
+        self.guarded_fns = getattr(self, "guarded_fns", []) + [f]
+        return L(S("defun-inline" if inline else "defun"), S(name), pat, body)
+
     def make_recursive(self):
         """structurally recursive list functions (terminating)."""
         rng = self.rng
@@ -693,6 +756,9 @@ class ProgGen:
         if self.has("manyparams") and self.nparams is None and rng.random() < 0.08:
             self.use("manyparams")
             n = rng.randint(9, 40)
+        want_guarded = self.has("guarded") and self.has("functions") and rng.random() < 0.3
+        if want_guarded:
+            self.extra_main_leaves = [(self.fresh("P"), "guard"), (self.fresh("P"), "guard"), (self.fresh("P"), "maybe")]
         pat, types, argv, shape = self.pattern(n, allow_nested=(n <= 8), prefix="P")
         if n >= 12 and not self.classic:
             # the modern compiler needs from tens of seconds (cl21) to many minutes (cl23+) for nested binding
@@ -722,12 +788,21 @@ class ProgGen:
                 helpers.append(self.make_function(False))
         if self.has("constants") and self.has("inlines") and rng.random() < 0.25:
             helpers += self.make_constant_chain()
+        if want_guarded:
+            for _ in range(rng.randint(1, 2)):
+                helpers.append(self.make_guarded())
         ret = rng.choice(["int", "int", "bytes", "ilist", "any"])
         body = self.expr(Scope(types), ret, rng.randint(1, 3) if self.has("dense") else rng.randint(1, 4))
         for f in self.__dict__.get("cap_fns", []):
             c = self.callform(Scope(types), f, 1)      # make sure the capture-and-binding-form function is called
             if c is not None:
                 body = L(S("c"), c, body)
+        for f in self.__dict__.get("guarded_fns", []):
+            (a1, _), (a2, _), (a3, _) = self.extra_main_leaves
+            args = [S(a1), S(a2), S(a3)]
+            if rng.random() < 0.3:
+                args[rng.randrange(2)] = rng.choice([NILT, I(1)])
+            body = L(S("c"), L(S(f["name"]), *args), body)
         if getattr(self, "chain_last", None) and rng.random() < 0.7:
             body = L(S("c"), S(self.chain_last), body)      # make sure the computed constant is used
         forms = [S("mod"), pat]
